@@ -1,6 +1,67 @@
 // Operations of the `coll` engine, their text form (line protocol), the `std::vec::Vec` reference
 // semantics, and the type-erased adapter (`VecDyn`) over the real vector types.
 
+use std::ops::Bound;
+
+pub const RANGE_FORMS: [&str; 9] = [
+    "a..b", "a..", "..b", "..=b", "a..=b", "..", "(Excluded(a-1), Excluded(b))", "(Excluded(a-1), Included(b-1))", "(Excluded(a-1), Unbounded)",
+];
+thread_local! {
+    /// how often each form of `RangeBounds` was handed to a range-taking operation
+    static RANGE_FORM_HIST: RefCell<[u64; 9]> = const { RefCell::new([0; 9]) };
+}
+pub fn range_form_hist() -> [u64; 9] {
+    RANGE_FORM_HIST.with(|h| *h.borrow())
+}
+
+/// The range `start..end` (normalised; possibly invalid: `start > end`, `end > len`) in one of ALL the forms a
+/// `RangeBounds<usize>` can take — `a..b`, `a..`, `..b`, `..=b`, `a..=b`, `..`, and `(Bound, Bound)` tuples with an
+/// EXCLUDED start (no range syntax produces those).  Every form is an exact re-encoding of `(start, end)` for a
+/// vector of length `len`; which one is used is a fixed function of the arguments and the run's seed, so the
+/// implementation and its `std` twin get the same one.  E.g. `(len + 1, len)` ↦ `(Excluded(len), Unbounded)`.
+pub fn form_range(start: usize, end: usize, len: usize) -> (Bound<usize>, Bound<usize>) {
+    let mut h = (start as u64).wrapping_mul(0x9E37_79B9_7F4A_7C15) ^ (end as u64).wrapping_mul(0xC2B2_AE3D_27D4_EB4F) ^ (len as u64).wrapping_mul(0x1656_67B1_9E37_79F9) ^ seed();
+    h ^= h >> 29;
+    h = h.wrapping_mul(0xBF58_476D_1CE4_E5B9);
+    h ^= h >> 32;
+    // the applicable forms
+    let mut forms: Vec<u8> = vec![0];
+    if end == len { forms.push(1); }
+    if start == 0 { forms.push(2); }
+    if start == 0 && end >= 1 { forms.push(3); }
+    if end >= 1 { forms.push(4); }
+    if start == 0 && end == len { forms.push(5); }
+    if start >= 1 { forms.push(6); forms.push(6); }
+    if start >= 1 && end >= 1 { forms.push(7); forms.push(7); }
+    if start >= 1 && end == len { forms.push(8); forms.push(8); }
+    let f = forms[(h % forms.len() as u64) as usize];
+    RANGE_FORM_HIST.with(|hh| hh.borrow_mut()[f as usize] += 1);
+    match f {
+        0 => (Bound::Included(start), Bound::Excluded(end)),
+        1 => (Bound::Included(start), Bound::Unbounded),
+        2 => (Bound::Unbounded, Bound::Excluded(end)),
+        3 => (Bound::Unbounded, Bound::Included(end - 1)),
+        4 => (Bound::Included(start), Bound::Included(end - 1)),
+        5 => (Bound::Unbounded, Bound::Unbounded),
+        6 => (Bound::Excluded(start - 1), Bound::Excluded(end)),
+        7 => (Bound::Excluded(start - 1), Bound::Included(end - 1)),
+        _ => (Bound::Excluded(start - 1), Bound::Unbounded),
+    }
+}
+
+/// what `std` makes of that very form on a slice of this length: `Ok((start, end))`, or `Err` if it panics
+pub fn std_norm(v: &[u64], start: usize, end: usize) -> Result<(usize, usize), ()> {
+    let r = form_range(start, end, v.len());
+    match catch_unwind(AssertUnwindSafe(|| {
+        let part = &v[r];
+        let off = (part.as_ptr() as usize - v.as_ptr() as usize) / std::mem::size_of::<u64>();
+        (off, off + part.len())
+    })) {
+        Ok(x) => Ok(x),
+        Err(_) => Err(()),
+    }
+}
+
 #[derive(Clone, Debug, PartialEq)]
 pub enum Op {
     Retain,
@@ -235,9 +296,8 @@ pub fn std_apply(v: &mut Vec<u64>, op: &Op, o: &[Oc]) -> Result<(String, usize),
             String::new()
         }
         Op::Drain(start, end, script, fin) => {
-            if start > end || *end > v.len() {
-                return Err(());
-            }
+            // (std's own reading of the form of the range that the implementation gets)
+            let (start, end) = &std_norm(v, *start, *end)?;
             let mut range: VecDeque<u64> = v[*start..*end].iter().copied().collect();
             let mut ys = Vec::new();
             for c in script {
@@ -326,10 +386,8 @@ pub fn std_apply(v: &mut Vec<u64>, op: &Op, o: &[Oc]) -> Result<(String, usize),
             if r.is_err() { "!".to_string() } else { String::new() }
         }
         Op::ExtendWithinClone(a, b) => {
-            if a > b || *b > v.len() {
-                return Err(());
-            }
-            for _ in *a..*b {
+            let (a, b) = std_norm(v, *a, *b)?;
+            for _ in a..b {
                 v.push(next());
             }
             String::new()
@@ -364,9 +422,7 @@ pub fn std_apply(v: &mut Vec<u64>, op: &Op, o: &[Oc]) -> Result<(String, usize),
             String::new()
         }
         Op::Splice(a, b, ids, pulls, hint, lie) => {
-            if a > b || *b > v.len() {
-                return Err(());
-            }
+            let (a, b) = &std_norm(v, *a, *b)?;
             // the same (possibly lying) source; `Vec`'s own `Splice::drop` may panic with "capacity overflow"
             let ys = RefCell::new(Vec::new());
             let r = catch_unwind(AssertUnwindSafe(|| {
@@ -492,7 +548,7 @@ macro_rules! impl_vecdyn {
                 String::new()
             }
             Op::ExtendWithinClone(a, b) => {
-                $s.extend_from_within_clone(*a..*b);
+                $s.extend_from_within_clone(form_range(*a, *b, $s.len()));
                 String::new()
             }
             Op::ResizeWith(n) => {
@@ -540,7 +596,7 @@ macro_rules! impl_vecdyn {
                         }
                     }
                     (1, Op::ExtendWithinClone(a, b)) => {
-                        if $s.try_extend_from_within_clone(*a..*b).is_err() {
+                        if $s.try_extend_from_within_clone(form_range(*a, *b, $s.len())).is_err() {
                             try_err()
                         }
                     }
@@ -583,7 +639,7 @@ macro_rules! impl_vecdyn {
         unreachable!("operation {:?} is not available on this type", $op)
     };
     (@split $s:ident, $a:ident, $b:ident, yes) => {
-        Some(Box::new($s.split_off($a..$b)))
+        Some(Box::new($s.split_off(form_range($a, $b, $s.len()))))
     };
     (@split $s:ident, $a:ident, $b:ident, no) => {
         None
@@ -641,7 +697,7 @@ macro_rules! impl_vecdyn {
                     Op::Remove(i) => val_text(s.remove(*i)),
                     Op::SwapRemove(i) => val_text(s.swap_remove(*i)),
                     Op::Drain(start, end, script, fin) => {
-                        let mut d = s.drain(*start..*end);
+                        let mut d = s.drain(form_range(*start, *end, s.len()));
                         let t = pulls_text(&mut d, script);
                         if *fin == b'k' {
                             d.keep_rest();
@@ -735,7 +791,7 @@ macro_rules! impl_extra {
                     }
                     Op::Splice(a, b, ids, pulls, hint, lie) => {
                         let src: Vec<T> = ids.iter().map(|i| T::make(*i)).collect();
-                        let mut sp = self.splice(*a..*b, Hinted { inner: src.into_iter(), cap: *hint, lie: *lie });
+                        let mut sp = self.splice(form_range(*a, *b, self.len()), Hinted { inner: src.into_iter(), cap: *hint, lie: *lie });
                         let mut ys = Vec::new();
                         for _ in 0..*pulls {
                             ys.push(match sp.next() {
@@ -868,7 +924,7 @@ macro_rules! impl_vecdyn_rev {
                     }
                     Op::PopIf => opt_text(s.pop_if(T::pred)),
                     Op::ExtendWithinClone(a, b) => {
-                        s.extend_from_within_clone(*a..*b);
+                        s.extend_from_within_clone(form_range(*a, *b, s.len()));
                         String::new()
                     }
                     Op::Alt(k, inner) => {
@@ -1073,9 +1129,7 @@ pub fn std_apply_rev(v: &mut Vec<u64>, op: &Op, o: &[Oc]) -> Result<(String, usi
             String::new()
         }
         Op::ExtendWithinClone(a, b) => {
-            if a > b || *b > d.len() {
-                return Err(());
-            }
+            let (a, b) = &std_norm(d.make_contiguous(), *a, *b)?;
             // the clones are made back to front and each goes in front of the previous one: the copy of the range
             // ends up in front, in order
             let part: Vec<u64> = (0..b - a).map(|k| vals[k]).collect();
